@@ -12,7 +12,8 @@ NEST = [t for t in MUTABLE_TOP if any(x in json.dumps(t[1:]) for x in ('"cont"',
 RULE = ("nested mutable types x histories that obtain child views ([i], .field, value(), iteration with the iterator "
         "kept alive, slices), keep up to 9 of them alive "
         "and mutate through them in random order; after every command root and encoding of EVERY held view are "
-        "compared with the store model; non-trivial = at least one mutation through a child view at depth >= 1")
+        "compared with the store model; at the end (model-free) a held child view is also assigned to another slot of its "
+        "parent and then mutated, and the parent compared with the same steps done with a detached copy; non-trivial = at least one mutation through a child view at depth >= 1")
 
 
 def gen_inputs(ctx):
@@ -23,11 +24,96 @@ def gen_inputs(ctx):
         yield gen_history(rng, t, rng.randrange(4, 26), p_child=0.35, p_iter=0.4)
 
 
+def poke(x, t):
+    """one deterministic mutation through view x of abstract type t (True if something was written)"""
+    k = t[0]
+    if k == "cont":
+        for i, ft in enumerate(t[1]):
+            if ft[0] == "uint":
+                old = int(getattr(x, "f%d" % i))
+                setattr(x, "f%d" % i, (old + 1) % (1 << (8 * ft[1])))
+                return True
+        ft = t[1][0]
+        setattr(x, "f0", T(ft).default(None) if is_basic(ft) else T(ft)())
+        return True
+    if k == "list":
+        if len(x) < t[2]:
+            x.append(T(t[1]).default(None) if is_basic(t[1]) else T(t[1])())
+        else:
+            x.pop()
+        return True
+    if k == "vec":
+        e = t[1]
+        x[0] = ((int(x[0]) + 1) % (1 << (8 * e[1]))) if e[0] == "uint" else (T(e).default(None) if is_basic(e) else T(e)())
+        return True
+    return False
+
+
+def alias_check(inp):
+    """model-free: a held (hooked) child view is ALSO assigned to another slot of its parent (`p.prev = p.cur`), then
+    mutated: the mutation must land where the view was obtained from, exactly as when a detached copy is assigned"""
+    t, v, cmds = inp["t"], inp["v"], inp["cmds"]
+    sh = Shadow(t, v)
+    for c in cmds:
+        try:
+            sh.run(c)
+        except Exception:
+            pass
+    for vi in range(1, len(sh.views)):
+        link = sh.parent[vi]
+        ct = sh.types[vi]
+        if link is None or ct is None or ct[0] not in ("cont", "list", "vec") or isinstance(link[1], tuple):
+            continue
+        pi, i = link
+        pt, P, c = sh.types[pi], sh.views[pi], sh.views[vi]
+        if sh.stale(vi) or sh.stale(pi) or pt[0] not in ("cont", "list", "vec"):
+            continue
+        try:
+            if pt[0] == "cont":
+                js = [j for j, ft in enumerate(pt[1]) if j != i and json.dumps(ft) == json.dumps(ct)]
+            else:
+                js = [j for j in range(len(P)) if j != i]
+            if not js:
+                continue
+            j = js[0]
+            cur = getattr(P, "f%d" % i) if pt[0] == "cont" else P[i]
+            if bytes(cur.hash_tree_root()) != bytes(c.hash_tree_root()):
+                continue          # the slot was overwritten since the view was obtained: the view is detached content
+            E = P.copy()
+            if pt[0] == "cont":
+                setattr(E, "f%d" % j, c.copy())
+                setattr(P, "f%d" % j, c)
+                ec = getattr(E, "f%d" % i)
+            else:
+                E[j] = c.copy()
+                P[j] = c
+                ec = E[i]
+            if not (poke(ec, ct) and poke(c, ct)):
+                continue
+            if bytes(P.hash_tree_root()) != bytes(E.hash_tree_root()) or bytes(P.encode_bytes()) != bytes(E.encode_bytes()):
+                return ("held child view %d was also assigned to slot %d of its parent and then mutated: the parent is not "
+                        "what it is when a detached copy is assigned instead" % (vi, j))
+            top = sh.views[0]
+            if pi != 0 and not sh.stale(pi):
+                # ... and the enclosing views still read the parent's current content
+                pass
+        except Exception as e:  # noqa
+            return "aliasing scenario raised %r" % (e,)
+        return None
+    return None
+
+
 def build(inp):
     coq, obs, st = execute(inp)
     names = ["P:initial"] + ["P:step%d" % (i + 1) for i in range(len(obs) - 1)]
     deep = any(c[0] in ("set", "append", "pop", "bitset", "change") and c[1] > 0 for c in inp["cmds"])
-    return Case(inp, coq, obs, names, nontrivial=deep, kind=inp["t"][0])
+    c = Case(inp, coq, obs, names, nontrivial=deep, kind=inp["t"][0])
+    c.why = alias_check(inp)
+    return c
+
+
+def direct_violation(c):
+    return c.why
 
 
 shrink = shrink_history
